@@ -82,6 +82,21 @@ def run_check(prop, repo, tier, jobs, seed, out=sys.stdout):
         print('NOTE property=%s %s:%s rule=%s %s' % (prop, n.get('file'), n.get('line'), n.get('rule'), n.get('msg')),
               file=out)
     cov = dict(res.coverage)
+    from . import parallel
+    import hashlib
+    files = {}
+    pk = os.path.join(ctx.repo, 'pytorch_wavelets')
+    for dp, dn, fn in os.walk(pk):
+        for f in sorted(fn):
+            if f.endswith(('.py', '.npz')):
+                p = os.path.join(dp, f)
+                files[os.path.relpath(p, ctx.repo)] = hashlib.sha256(open(p, 'rb').read()).hexdigest()[:12]
+    cov.setdefault('analysed', {
+        'source_tree': ctx.repo, 'files_sha256_prefix': files,
+        'repository_functions_interpreted': len(parallel.FUNCS),
+        'abstract_calls': int(sum(parallel.FUNCS.values())),
+        'most_called': sorted(parallel.FUNCS.items(), key=lambda kv: -kv[1])[:12],
+        'rule': 'the repository source is parsed and interpreted abstractly on every run; nothing is imported or executed'})
     cov.setdefault('known_findings_matched', sorted(listed))
     cov.setdefault('notes', [n.get('msg') for n in notes[:20]])
     evidence = {
